@@ -16,6 +16,7 @@ pub mod bytes;
 pub mod elfnames;
 pub mod encode;
 pub mod realistic;
+pub mod relate;
 pub mod panics;
 pub mod exercise_hdr;
 pub mod exercise_mbi;
